@@ -1,6 +1,6 @@
 import QuiverModel.Core.Packaging.Renaming
 import QuiverModel.Core.Packaging.Sem
-import QuiverModel.Lemmas.Packaging.Basic
+import QuiverModel.Lemmas.Packaging.Exec
 /-
 C10 — packaging steps preserve behaviour (property theorems).
 
@@ -97,5 +97,166 @@ example : ∃ ρ, IsRenaming ρ exP exP' 1 0 := by
   exact ⟨ρ, checkRenaming_sound hρ⟩
 /-- …and rejects when the shaken program's compatibility row lost a tag (the F13 shape). -/
 example : checkRenaming exP { exP' with compat := [] } 1 0 = none := by decide
+
+end C10
+
+/-! ## Execution commutes with a validated renaming -/
+
+namespace C10
+open QM QM.Packaging
+
+/-- Side condition on a state of the *source* program: if the next instruction is a type test, the
+    tested value's tag type has an entry in `P`'s type table (the value lies inside the program's
+    type universe). The compiler registers the static type of every scrutinee, so accepted programs
+    satisfy it (C01/C08 territory — here a hypothesis); without it what `IsType` answers depends on
+    which *other* programs share the table (see notes/C10.md, "tagPresent"). -/
+def IsTypeSafe (P : Prog) (s : St) : Prop :=
+  ∀ fr rest t v st, s.frames = fr :: rest → fetch P fr = some (.isType t) → s.stack = v :: st →
+    P.tagPresent v.tag = true
+
+/-- One step (an instruction, a frame auto-pop, or completion) commutes with the renaming, given how
+    the type tests of the current function answer. -/
+theorem step_commutes_of {ρ : Ren} {P P' : Prog} {e e' : Nat} (hρ : IsRenaming ρ P P' e e')
+    {B B' : BuiltinSem} (hB : BuiltinsCommute ρ B B') {s s' : St} (hs : RelSt ρ s s')
+    (hist : ∀ fr rest t t' v v' st, s.frames = fr :: rest → fetch P fr = some (.isType t) →
+      (∃ F, P.fns[fr.fn]? = some F ∧ t ∈ isTypeOps F.instrs ∧ ∃ f', ρ.fn.get fr.fn = some f') →
+      ρ.type.get t = some t' → s.stack = v :: st → RelVal ρ v v' →
+      P.isCompat t v.tag = P'.isCompat t' v'.tag) :
+    RelRes ρ (step P B s) (step P' B' s') := by
+  obtain ⟨hstack, hlocals, hframes, hpers⟩ := hs
+  rcases s with ⟨stk, lo, frs, pe⟩
+  rcases s' with ⟨stk', lo', frs', pe'⟩
+  simp only at hstack hlocals hframes hpers hist
+  subst hpers
+  unfold step
+  cases hframes with
+  | nil =>
+    cases hstack with
+    | nil => exact .err _
+    | cons hv _ => exact .done hv
+  | cons hfr hrest =>
+    rename_i fr fr' rest rest'
+    rcases fetch_rel hρ hfr with ⟨h1, h2⟩ | ⟨i, i', F, hF, hFi, h1, h2, hi⟩
+    · simp only [h1, h2, hfr.base]
+      have hempty : rest'.isEmpty = rest.isEmpty := by cases hrest <;> rfl
+      rw [hempty]
+      have hlo : RelVals ρ (if (!pe' || !rest.isEmpty) = true then lo.take fr.base else lo)
+          (if (!pe' || !rest.isEmpty) = true then lo'.take fr.base else lo') := by
+        split
+        · exact hlocals.take _
+        · exact hlocals
+      cases hrest with
+      | nil => exact relNext hstack hlo .nil
+      | cons hc hcs => exact relNext hstack hlo (.cons hc.advance hcs)
+    · simp only [h1, h2]
+      have hs2 : RelSt ρ ⟨stk, lo, fr :: rest, pe'⟩ ⟨stk', lo', fr' :: rest', pe'⟩ :=
+        ⟨hstack, hlocals, .cons hfr hrest, rfl⟩
+      refine exec_commutes hρ hB hs2 hfr hrest hi ?_
+      intro t t' v v' st hit ht hst hv
+      subst hit
+      exact hist fr rest t t' v v' st rfl h1 ⟨F, hF, mem_isTypeOps hFi, _, hfr.fn⟩ ht hst hv
+
+/-- **One step commutes with a validated renaming**, for a state whose type test (if any) is on a
+    value inside the program's type universe. -/
+theorem step_commutes {ρ : Ren} {P P' : Prog} {e e' : Nat} (hρ : IsRenaming ρ P P' e e')
+    {B B' : BuiltinSem} (hB : BuiltinsCommute ρ B B') {s s' : St} (hs : RelSt ρ s s')
+    (hsafe : IsTypeSafe P s) : RelRes ρ (step P B s) (step P' B' s') := by
+  refine step_commutes_of hρ hB hs ?_
+  intro fr rest t t' v v' st hfrs hfetch ⟨F, hF, hmem, f', hf'⟩ ht hst hv
+  exact hρ.compat _ _ F hf' hF t hmem t' ht _ _ hv.tag (hsafe fr rest t v st hfrs hfetch hst)
+
+/-- Under the strict form no side condition is needed. -/
+theorem step_commutes_strict {ρ : Ren} {P P' : Prog} {e e' : Nat} (hρ : IsRenamingStrict ρ P P' e e')
+    {B B' : BuiltinSem} (hB : BuiltinsCommute ρ B B') {s s' : St} (hs : RelSt ρ s s') :
+    RelRes ρ (step P B s) (step P' B' s') := by
+  refine step_commutes_of hρ.toIsRenaming hB hs ?_
+  intro fr rest t t' v v' st _ _ ⟨F, hF, hmem, f', hf'⟩ ht _ hv
+  exact hρ.compat_all _ _ F hf' hF t hmem t' ht _ _ hv.tag
+
+/-- The start states of the two entries are related (`spawn_process(entry, [], argument)`). -/
+theorem start_related {ρ : Ren} {P P' : Prog} {e e' : Nat} (hρ : IsRenaming ρ P P' e e') {a a' : Val}
+    (ha : RelVal ρ a a') : RelSt ρ (St.start e a) (St.start e' a') :=
+  ⟨.cons ha .nil, .nil, .cons ⟨hρ.entry, rfl, rfl, rfl⟩ .nil, rfl⟩
+
+/-- **Execution commutes with renaming** (`stepsTo P s t → stepsTo P' (ρ s) (ρ t)`): every state `P`
+    reaches from `s` is matched by a ρ-related state `P'` reaches from the related `s'` in the same
+    number of steps — for every input, every execution length, every builtin semantics that commutes
+    with ρ. Covers tree-shake and merge for all executions at once. -/
+theorem run_commutes_with_renaming {ρ : Ren} {P P' : Prog} {e e' : Nat} (hρ : IsRenaming ρ P P' e e')
+    {B B' : BuiltinSem} (hB : BuiltinsCommute ρ B B') {s t : St} (hst : Steps P B s t) :
+    ∀ {s' : St}, RelSt ρ s s' → (∀ u, Steps P B s u → IsTypeSafe P u) →
+      ∃ t', Steps P' B' s' t' ∧ RelSt ρ t t' := by
+  induction hst with
+  | refl s => intro s' hs _; exact ⟨s', .refl s', hs⟩
+  | @cons s m u hstep _ ih =>
+    intro s' hs hsafe
+    have h1 := step_commutes hρ hB hs (hsafe s (.refl s))
+    rw [hstep] at h1
+    generalize hstep' : step P' B' s' = r' at h1
+    cases h1 with
+    | next hm =>
+      obtain ⟨t', ht', hrel⟩ := ih hm (fun u hu => hsafe u (.cons hstep hu))
+      exact ⟨t', .cons hstep' ht', hrel⟩
+
+/-- …and so do the *results*: whatever a fuelled run of `P` ends with (value, error class, panic,
+    or a yield to the scheduler with its state), the run of `P'` with the same fuel ends with the
+    ρ-related result. -/
+theorem run_result_commutes {ρ : Ren} {P P' : Prog} {e e' : Nat} (hρ : IsRenaming ρ P P' e e')
+    {B B' : BuiltinSem} (hB : BuiltinsCommute ρ B B') :
+    ∀ (fuel : Nat) {s s' : St} {r : Res}, RelSt ρ s s' → (∀ u, Steps P B s u → IsTypeSafe P u) →
+      run P B fuel s = some r → ∃ r', run P' B' fuel s' = some r' ∧ RelRes ρ r r'
+  | 0, _, _, _, _, _, h => by simp [run] at h
+  | fuel + 1, s, s', r, hs, hsafe, h => by
+    have h1 := step_commutes hρ hB hs (hsafe s (.refl s))
+    simp only [run] at h ⊢
+    generalize hstep' : step P' B' s' = r' at h1
+    cases hstep : step P B s with
+    | next m =>
+      rw [hstep] at h h1
+      cases h1 with
+      | next hm => exact run_result_commutes hρ hB fuel hm (fun u hu => hsafe u (.cons hstep hu)) h
+    | err e0 =>
+      rw [hstep] at h h1; cases h
+      cases h1 with
+      | err => exact ⟨_, rfl, .err _⟩
+    | panic =>
+      rw [hstep] at h h1; cases h
+      cases h1 with
+      | panic => exact ⟨_, rfl, .panic⟩
+    | yield m i =>
+      rw [hstep] at h h1; cases h
+      cases h1 with
+      | yield hm hi => exact ⟨_, rfl, .yield hm hi⟩
+    | done v =>
+      rw [hstep] at h h1; cases h
+      cases h1 with
+      | done hv => exact ⟨_, rfl, .done hv⟩
+
+/-- The same without any side condition, for pairs the validator reports as `strict`. -/
+theorem run_commutes_strict {ρ : Ren} {P P' : Prog} {e e' : Nat} (hρ : IsRenamingStrict ρ P P' e e')
+    {B B' : BuiltinSem} (hB : BuiltinsCommute ρ B B') {s t : St} (hst : Steps P B s t) :
+    ∀ {s' : St}, RelSt ρ s s' → ∃ t', Steps P' B' s' t' ∧ RelSt ρ t t' := by
+  induction hst with
+  | refl s => intro s' hs; exact ⟨s', .refl s', hs⟩
+  | @cons s m u hstep _ ih =>
+    intro s' hs
+    have h1 := step_commutes_strict hρ hB hs
+    rw [hstep] at h1
+    generalize hstep' : step P' B' s' = r' at h1
+    cases h1 with
+    | next hm =>
+      obtain ⟨t', ht', hrel⟩ := ih hm
+      exact ⟨t', .cons hstep' ht', hrel⟩
+
+/-- The strict check is sound as well. -/
+theorem strictB_sound {ρ : Ren} {P P' : Prog} {e e' : Nat} (h : validateB ρ P P' e e' = true)
+    (hs : strictB ρ P P' = true) : IsRenamingStrict ρ P P' e e' :=
+  { toIsRenaming := validateB_sound h
+    compat_all := fun _ _ _ hf hF _ ht _ ht' _ _ hc =>
+      compatFnOK_spec (AMap.all_of_get hs hf) hF ht ht' (mem_tagPairs hc) }
+
+/-- Non-vacuity of the execution theorem: `exP` run from its entry reaches a final state, and the
+    shaken `exP'` reaches the related one. -/
+example : ∃ r, run exP (fun _ _ => .panic) 20 (St.start 1 Val.nil) = some r := ⟨_, rfl⟩
 
 end C10
